@@ -51,7 +51,7 @@ CHECKS.update({
 CHECKS.update({
  'C08': e3('SEQUENTIAL HALF ONLY: expiry = minimum of the deadlines to the root for every tree of depth 3 with solver-chosen deadlines, notification reaches descendants and leaves ancestors/siblings alone (single-thread symbolic execution of the real note.c). '
            'The concurrent half of the property is not decided (programs too large for the bounded model checker).', tech='bounded symbolic execution of the real note code on symbolic trees (seqcc single thread -> CBMC); concurrency half not decided'),
- 'C09': e3('SEQUENTIAL HALF ONLY (thorough tier): adoption of the children of a freed note and no access to freed notes in a single-thread free/notify sequence; the concurrent half is not decided.',
+ 'C09': e3('SEQUENTIAL HALF ONLY: adoption of the children of a freed note and no access to freed notes in a single-thread free/notify sequence; the concurrent half is not decided.',
            tech='bounded symbolic execution of nsync_note_free / notify sequences with object liveness tracking (seqcc single thread -> CBMC); concurrency half not decided'),
 })
 NA = {}
